@@ -192,7 +192,7 @@ def shrink_candidates(scn):
     yield from generic_world_candidates(scn)
 
 
-RUNS = {"quick": 2500, "thorough": 100000}
+RUNS = {"quick": 2500, "thorough": 60000}
 RULE = ("one evaluation = one seeded world and update history biased to push grains through "
         "chi/n_grains (high M*, chi in {0..0.9}, few grains, non-uniform volumes incl. exact zeros, "
         "exact-tie constructions, chi = 0); after every update the stored snapshot is compared with "
